@@ -3,6 +3,6 @@ CONSTANTS
   Cap = 2
   Amount = 4
   CloseFirst = TRUE
-  ReadPipeFix = FALSE
-  ErrPipeFix = TRUE
+  ReadPipeFix = TRUE
+  ErrPipeFix = FALSE
 INVARIANT Reaped
